@@ -8,7 +8,8 @@ from cmv.oracles import wcag, csscolor
 
 CONFIGS = [(m, lg, vr) for m in (0, 1, 2) for lg in (False, True) for vr in (False, True)]
 BLEND_TOL = 1.5 + 1e-6
-ALPHAS = ["0", "1", "0.5", "0.001", "0.999", "0.25", "0.8", "0.9999999999999999"]
+ALPHAS = ["0", "1", "0.5", "0.6", "0.25", "0.8", "0.001", "0.999", "0.9999999999999999"]
+POOL_FG = [(255, 255, 255), (0, 0, 0), (255, 0, 0), (0, 102, 204), (119, 119, 119), (255, 204, 0)]
 
 
 def build_cases(seed, salt, n, per_pair_configs=3, translucent_every=7, classes=None):
@@ -29,15 +30,40 @@ def build_cases(seed, salt, n, per_pair_configs=3, translucent_every=7, classes=
             # translucent text: foreground fg with alpha over this background
             kind = SP.TRANSLUCENT_KINDS[rnd.randrange(len(SP.TRANSLUCENT_KINDS))]
             a = ALPHAS[rnd.randrange(len(ALPHAS))] if rnd.random() < 0.5 else ("%.*f" % (rnd.randrange(1, 5), rnd.random()))
-            sp = SP.spell_translucent(t, a, kind)
+            fg = t
+            if rnd.random() < 0.5:
+                # a small pool of foregrounds and alphas: the *same* translucent string then meets many different
+                # backgrounds within one process (its composite must follow the background every time)
+                fg = POOL_FG[rnd.randrange(len(POOL_FG))]
+                a = ALPHAS[2 + rnd.randrange(4)]
+            sp = SP.spell_translucent(fg, a, kind)
             if sp is not None:
-                case.update({"tk": kind, "text": SP.jsonable(sp), "alpha": a, "fg": list(t)})
+                case.update({"tk": kind, "text": SP.jsonable(sp), "alpha": a, "fg": list(fg)})
         if per_pair_configs >= len(CONFIGS):
             cfgs = list(CONFIGS)
         else:
             cfgs = rnd.sample(CONFIGS, per_pair_configs)
         case["cfgs"] = [list(c) for c in cfgs]
         cases.append(case)
+    return cases
+
+
+def same_string_cases(seed, salt, n_bgs=6, cfgs=None):
+    """One shard's worth of cases in which each of a few translucent text strings meets several different backgrounds
+    in sequence, in one process (a composite remembered per string, not per (string, background), shows here)."""
+    rnd = G.rng("samestring", seed, salt)
+    cases = []
+    for fg in POOL_FG:
+        for a in ("0.5", "0.6", "0.85"):
+            kind = SP.TRANSLUCENT_KINDS[rnd.randrange(2)]
+            sp = SP.spell_translucent(fg, a, kind)
+            if sp is None:
+                continue
+            for _ in range(n_bgs):
+                b = G.uniform(rnd) if rnd.random() < 0.7 else rnd.choice([(0, 0, 0), (255, 255, 255), (26, 58, 107)])
+                bk, bsp = rnd.choice(SP.available(b, ["hex6", "tuple", "rgb"]))
+                cases.append({"cls": "same-string", "t": list(fg), "b": list(b), "tk": kind, "text": SP.jsonable(sp), "bk": bk, "bg": SP.jsonable(bsp),
+                              "alpha": a, "fg": list(fg), "cfgs": [list(c) for c in (cfgs or rnd.sample(CONFIGS, 2))]})
     return cases
 
 
@@ -97,6 +123,7 @@ def observe(case, lib):
         comp = obs.get("text_rgb")
         if comp is None or any(abs(float(e) - c) > BLEND_TOL for e, c in zip(exact, comp)):
             obs["skip"] = "composite outside C13 tolerance"
+            obs["exact"] = [round(float(e), 2) for e in exact]
             return obs
         obs["orig"] = tuple(comp)
     else:
@@ -105,7 +132,7 @@ def observe(case, lib):
     return obs
 
 
-def run_cases(shard, rec, lib, judges):
+def run_cases(shard, rec, lib, judges, on_skip=None):
     for case in shard["cases"]:
         obs = observe(case, lib)
         rec.ev(max(1, len(obs["res"])))
@@ -114,6 +141,8 @@ def run_cases(shard, rec, lib, judges):
         rec.count("text_kind:" + case["tk"])
         if obs["skip"]:
             rec.count("skipped:" + obs["skip"])
+            if on_skip:
+                on_skip(case, obs, rec)
             continue
         for j in judges:
             j(case, obs, rec)
